@@ -6,7 +6,8 @@ Ev == TraceLog[l]
 TReset == /\ Ev.e = "Reset"
           /\ st' = [i \in Thr |-> "none"] /\ kind' = [i \in Thr |-> ""] /\ tid' = [i \in Thr |-> 0 - 1]
           /\ nreg' = [i \in Thr |-> 0] /\ ncb' = [i \in Thr |-> 0] /\ joined' = [i \in Thr |-> FALSE] /\ mainTid' = 0
-TSetup == Ev.e = "Setup" /\ mainTid' = Ev.main /\ UNCHANGED <<st, kind, tid, nreg, ncb, joined>>
+          /\ once' = [n \in Onces |-> "no"]
+TSetup == Ev.e = "Setup" /\ mainTid' = Ev.main /\ UNCHANGED <<st, kind, tid, nreg, ncb, joined, once>>
 TLaunch == Ev.e = "Launch" /\ Launch(Ev.thr, Ev.kind)
 (* launch succeeds (a cpu that cannot be used is not an error: the library launches unpinned); the thread object *)
 (* reports the join strategy it was launched with: AWS_THREAD_JOINABLE = 2, AWS_THREAD_MANAGED = 4             *)
@@ -21,10 +22,14 @@ TJoinRet == Ev.e = "JoinRet" /\ JoinRet(Ev.thr, Ev.rc)
 TJoinAllBegin == Ev.e = "JoinAllBegin" /\ UNCHANGED tvars
 TReInit == Ev.e = "ReInit" /\ UNCHANGED tvars     \* initialising the library again changes nothing observable
 TJoinAllRet == Ev.e = "JoinAllRet" /\ JoinAllRet(Ev.rc, Ev.count)
+TOnceRan == Ev.e = "OnceRan" /\ OnceRan(Ev.n, Ev.argok)
+TOnceEnd == Ev.e = "OnceEnd" /\ OnceEnd(Ev.n)
+TOnceRet == Ev.e = "OnceRet" /\ OnceRet(Ev.n)
+TSelfView == Ev.e = "SelfView" /\ SelfView(Ev.thr, Ev.ideq, Ev.idmain, Ev.named, Ev.nameok, Ev.sleptok)
 TEnd == Ev.e = "End" /\ EndOk(Ev.live, Ev.unjoined)
 
 TNext == l <= TraceLen /\ l' = l + 1 /\
          (TReset \/ TSetup \/ TLaunch \/ TLaunchRet \/ TFnRan \/ TAtExitReg \/ TFnEnd \/ TAtExit \/ TJoinRet
-            \/ TJoinAllBegin \/ TReInit \/ TJoinAllRet \/ TEnd)
+            \/ TJoinAllBegin \/ TReInit \/ TJoinAllRet \/ TOnceRan \/ TOnceEnd \/ TOnceRet \/ TSelfView \/ TEnd)
 TSpec == (l = 1 /\ TInit0) /\ [][TNext]_<<tvars, l>>
 =============================================================================
